@@ -1742,8 +1742,18 @@ class Interp:
                 self.assign_target(g.target, x, cenv)
                 return self.eval(e.elt, cenv)
 
-            probe = fn(rng.probe_index(self.ctx))
-            return Arr(rng.count(), fn=fn, dtype=ops.dtype_of_scalar(probe) if not isinstance(probe, (Obj, list, tuple, dict)) else "object", is_nd=False)
+            cnt = rng.count()
+            if not self.ctx.branch(self.truth(ops.scalar_compare(">", cnt, 0))):
+                return []
+            pidx = rng.probe_index(self.ctx)
+            cnt_t = ops.as_int_term(cnt)
+            # the probe stands for an arbitrary element: it is in range (the count is positive on this path)
+            self.ctx.facts.append(z3.And(pidx >= 0, pidx < cnt_t))
+            forks_before = self.ctx.forks
+            probe = fn(pidx)
+            if self.ctx.forks != forks_before:
+                raise Unsupported("data-dependent branch inside a comprehension over a symbolic range")
+            return Arr(cnt, fn=fn, dtype=ops.dtype_of_scalar(probe) if not isinstance(probe, (Obj, list, tuple, dict)) else "object", is_nd=False)
         return out
 
     # ---- calls
